@@ -1245,7 +1245,11 @@ class xfunc_op_base(xfunc):
     def reduce(self, cube, regions):
         """Return `regions` reduced to proper output."""
         output_values, output_validity = regions
-        output_values[~output_validity] = self.null
+        null = self.null
+        if output_values.dtype.kind in "mM" and isinstance(null, float) and null != null:
+            # NaN cannot be assigned into a datetime/timedelta array: use NaT.
+            null = numpy.array("NaT", dtype=output_values.dtype)
+        output_values[~output_validity] = null
 
         if isinstance(self.return_missing_as, tuple):
             return output_values, output_validity
